@@ -1679,6 +1679,87 @@ var paAliasStmts = []string{
 	"select key where key(2) = 'a'",
 }
 
+// pfFoldedPlanStmts: statements where the constant folder (optimizeSelectExpressions, which runs
+// BEFORE buildFinalPlan) changes what buildFinalPlan sees in stmt.Fields, and GROUP BY statements
+// whose select fields use select-field names.  parse_check runs its plan stage on the folded
+// fields (Model/ParseCheck.v plan_check / fold_fields) and takes every statement the parser
+// returns; these texts must be COMPARED (code 0), not outside the model.
+//   - a constant-true `|` / constant-false `&` next to an aggregate call: the aggregate call is
+//     folded away, a ProjectionPlan is built;
+//   - a constant-false `|` / constant-true `&`: the folder returns the other operand, the
+//     aggregate call stays;
+//   - a constant call / a constant sub-expression folded to a literal next to an aggregate call:
+//     still an aggregate field;
+//   - each alone, before and after a plain field, with GROUP BY on the plain field, with and
+//     without ORDER BY / LIMIT;
+//   - GROUP BY with select fields that use select-field names.
+func pfFoldedPlanStmts() []string {
+	aggrs := []string{"count(1) > 0", "sum(int(value)) > 3"}
+	heads := []string{}
+	for _, a := range aggrs {
+		heads = append(heads,
+			"true | ("+a+")", "("+a+") | true", "false & ("+a+")", "("+a+") & false",
+			"false | ("+a+")", "true & ("+a+")", "("+a+") | false", "("+a+") & true",
+			"1 < 2 | ("+a+")", "2 < 1 & ("+a+")", "!false | ("+a+")", "'a' = 'a' | ("+a+")",
+			"key = 'k' | (true | ("+a+"))", "(true | ("+a+")) & key ^= 'k'",
+			"upper('a') = 'A' | ("+a+")", "strlen('abc') > 5 & ("+a+")")
+	}
+	heads = append(heads,
+		"strlen('abc') + count(1)", "count(1) + strlen('abc')", "int('3') * sum(int(value))",
+		"sum(int(value)) + (1 + 2)", "1 + 2 + count(1)", "count(1) + 1 + 2", "strlen(upper('ab')) * 2 - count(1)",
+		"strlen('abc') + strlen('de')", "true | false", "upper('a') + lower('B')")
+	tails := []string{"", " order by x", " limit 2", " order by x desc limit 1, 2"}
+	var out []string
+	for i, h := range heads {
+		f := h + " as x"
+		out = append(out, "select "+f+", key where key > ''"+tails[i%len(tails)])
+		out = append(out, "select "+f+" where key > ''"+tails[(i+1)%len(tails)])
+		switch i % 4 {
+		case 0:
+			out = append(out, "select key, "+f+" where key ^= 'k'"+tails[(i+2)%len(tails)])
+		case 1:
+			out = append(out, "select "+f+", key where key > '' group by key"+tails[(i+2)%len(tails)])
+		case 2:
+			out = append(out, "select key as zq0, "+f+", value where key > '' group by zq0"+tails[(i+3)%len(tails)])
+		default:
+			out = append(out, "select "+f+", count(1) as c where key > ''"+tails[(i+3)%len(tails)])
+		}
+	}
+	// the example of the report, as it stands
+	out = append(out, "select true | (count(1) > 0) as x, key where key > ''")
+	// GROUP BY with select fields that use select-field names
+	groups := []string{
+		"select int(value) as n, sum(n) as s, n + 1 as m where key > '' group by n, m",
+		"select int(value) as n, sum(n) as s, n + 1 as m, key where key > '' group by n, m",
+		"select int(value) as n, sum(n) as s, n + 1 as m where key > '' group by n",
+		"select int(value) as n, sum(n) as s where key > '' group by n",
+		"select int(value) as n, sum(n) + count(1) as s, n * 2 as m where key ^= 'k' group by m, n",
+		"select key as k, upper(k) as u, count(1) as c where key > '' group by k, u",
+		"select key as k, upper(k) as u, count(1) as c where key > '' group by u",
+		"select key as k, k + 'x' as kx, min(kx) as lo, max(k) as hi where key > '' group by k, kx",
+		"select upper(k) as u, key as k, count(u) as c where key > '' group by u, k",
+		"select int(value) as n, n + 1 as m, m * 2 as d, sum(d) as s where key > '' group by n, m, d",
+		"select int(value) as n, true | (sum(n) > 0) as x where key > '' group by n",
+		"select int(value) as n, false | (sum(n) > 0) as x where key > '' group by n",
+		"select int(value) as n, 1 + 2 + sum(n) as s, n + (1 + 2) as m where key > '' group by n, m",
+		"select int(value) as n, n as m, sum(m) as s where key > '' group by n, m",
+		"select int(value) as n, count(1) as c, c + 1 as d where key > '' group by n",
+		"select key as k, value as v, k + v as kv, count(1) where key > '' group by k, v, kv",
+		"select key as k, value as v, k + v as kv, count(1) where key > '' group by kv",
+		"select int(value) as n, sum(n) as s, n + 1 as m where s > 1 group by n, m",
+		"select int(value) as n, sum(n) as s, n + 1 as m where m > 1 & key > '' group by n, m",
+		"select int(value) as n, sum(n) as s, n + 'x' as m where key > '' group by n, m",
+		"select int(value) as n, sum(k) as s where key > '' group by n",
+	}
+	gtails := []string{"", " order by n", " limit 2", " order by s desc limit 1, 2", " order by m, n desc"}
+	for i, g := range groups {
+		out = append(out, g)
+		out = append(out, g+gtails[1+i%(len(gtails)-1)])
+		out = append(out, g+gtails[1+(i+2)%(len(gtails)-1)])
+	}
+	return out
+}
+
 func runC17PA(c *runCtx, e *emitter) {
 	g := &c17Gen{r: newRng(c.seed*1000003 + 17)}
 	r := g.r
@@ -1691,6 +1772,9 @@ func runC17PA(c *runCtx, e *emitter) {
 	}
 	for _, q := range paAliasStmts {
 		paCase(e, q, "directed", q, "none")
+	}
+	for _, q := range pfFoldedPlanStmts() {
+		paCase(e, q, "directed_folded_plan", q, "none")
 	}
 	for b := 0; b < nBase; b++ {
 		long := b%3 == 2
